@@ -476,7 +476,7 @@ def main(argv):
                 base = scratch_copy()
                 quiet = True
                 try:
-                    p = subprocess.run(["git", "apply", "--unsafe-paths", "--directory", base, patch], capture_output=True, text=True, cwd="/")
+                    p = subprocess.run(["git", "apply", "--unsafe-paths", "--include=inscripta/*", "--directory", base, patch], capture_output=True, text=True, cwd="/")
                     if p.returncode != 0:
                         print(f"[benign-seeded] {name}: patch does not apply: {p.stderr[-300:]}")
                         failed.append(name)
